@@ -92,3 +92,14 @@ impl Network {
             .map_err(StateError::Deserialization)
     }
 }
+
+#[cfg(feature = "verif")]
+impl Network {
+    /// (bytes read but not yet framed, bytes written but not yet flushed)
+    pub fn verif_buffers(&self) -> (Vec<u8>, Vec<u8>) {
+        (
+            self.framed.read_buffer().to_vec(),
+            self.framed.write_buffer().to_vec(),
+        )
+    }
+}
